@@ -113,6 +113,94 @@ func changedSections(a, b string) string {
 
 func storeFails(end string) bool { return end == "retbig" || end == "retmax" }
 
+// entries of one section of a protected observation, by account name
+func sectionEntries(obs, tag string) map[string]string {
+	m := map[string]string{}
+	i := strings.Index(obs, tag+"[")
+	if i < 0 {
+		return m
+	}
+	j := strings.Index(obs[i:], "]")
+	for _, e := range strings.Split(obs[i+2:i+j], ";") {
+		if e == "" {
+			continue
+		}
+		k := strings.IndexAny(e, ":=")
+		if tag == "L" {
+			k = -1
+		}
+		if k < 0 {
+			m[e] = e
+		} else {
+			m[e[:k]] = e
+		}
+	}
+	return m
+}
+
+// names whose entry differs between two observations in one section
+func diffNames(a, b, tag string) []string {
+	ma, mb := sectionEntries(a, tag), sectionEntries(b, tag)
+	seen := map[string]bool{}
+	var out []string
+	for n, e := range ma {
+		if mb[n] != e && !seen[n] {
+			seen[n] = true
+			out = append(out, n)
+		}
+	}
+	for n, e := range mb {
+		if ma[n] != e && !seen[n] {
+			seen[n] = true
+			out = append(out, n)
+		}
+	}
+	sort.Strings(out)
+	return out
+}
+
+func subsetOf(names []string, allowed ...string) bool {
+	for _, n := range names {
+		ok := false
+		for _, a := range allowed {
+			if n == a {
+				ok = true
+			}
+		}
+		if !ok {
+			return false
+		}
+	}
+	return true
+}
+
+// the signature of the recorded ErrCodeStoreOutOfGas defect: the frame left a NEW account with a nonce and
+// without code (the deposit failed after everything else was kept). Anything a store-failing CREATE leaves
+// without this signature is a different violation and gets its own key.
+func codestoreSignature(entry, exit string) bool {
+	ea, xa := sectionEntries(entry, "A"), sectionEntries(exit, "A")
+	for n, e := range xa {
+		if _, had := ea[n]; had {
+			continue
+		}
+		f := strings.Split(e, ":")
+		if len(f) == 5 && f[1] != "0" && f[2] == "-" {
+			return true
+		}
+	}
+	return false
+}
+
+func failClass(end, entry, exit string) string {
+	if !storeFails(end) {
+		return end
+	}
+	if codestoreSignature(entry, exit) {
+		return "codestore-oog"
+	}
+	return end + ":unexplained"
+}
+
 func hasEnding(f *frame, end string, createOnly bool) bool {
 	for _, a := range f.acts {
 		switch a.kind {
@@ -153,14 +241,29 @@ func (p *probeState) begin(tx *txn) {
 	p.walk(tx.body, -1, false)
 }
 
+// a violation is printed (and flushed) the moment its class is first seen, not at the end of the run
+var printedKeys = map[string]bool{}
+
+func emitViolation(v violation) {
+	if printedKeys[v.Key] {
+		return
+	}
+	printedKeys[v.Key] = true
+	b, _ := json.Marshal(v)
+	fmt.Println("VIOL " + string(b))
+	os.Stdout.Sync()
+}
+
 func (p *probeState) report(key, desc string) {
 	for _, v := range p.viols {
 		if v.Key == key {
 			return // one witness per class and probe run is enough
 		}
 	}
-	p.viols = append(p.viols, violation{Key: key, Desc: desc, Replay: map[string]interface{}{
-		"prefix": append([]string{}, p.prefix...), "ops": []string{p.tx.line()}}})
+	v := violation{Key: key, Desc: desc, Replay: map[string]interface{}{
+		"prefix": append([]string{}, p.prefix...), "ops": []string{p.tx.line()}}}
+	p.viols = append(p.viols, v)
+	emitViolation(v)
 }
 
 func (p *probeState) onPre(id int) {
@@ -243,7 +346,22 @@ func (p *probeState) onExit(id int, ok bool, dump string) {
 			if cls == "" {
 				cls = "other"
 			}
-			p.report("static-frame:"+cls+":"+changedSections(ref, now), fmt.Sprintf("frame %d (%s) inside a STATICCALL changed the state: before %s after %s", id, frameDesc(ni.a), ref, now))
+			// the recorded defects explain only certain differences; anything beyond them is a new class
+			switch cls {
+			case "authcall": // authority nonce bump (b30) and, with value, sponsor -> callee balance movement
+				if !subsetOf(diffNames(ref, now, "A"), "b30") || len(diffNames(ref, now, "M")) > 0 || len(diffNames(ref, now, "L")) > 0 {
+					cls += ":unexplained"
+				}
+			case "stakefamily": // balance and stake of the miner account b23
+				if len(diffNames(ref, now, "A")) > 0 || !subsetOf(diffNames(ref, now, "B"), "b23") || !subsetOf(diffNames(ref, now, "M"), "b23") || len(diffNames(ref, now, "L")) > 0 {
+					cls += ":unexplained"
+				}
+			}
+			key := "static-frame:" + cls + ":" + changedSections(ref, now)
+			if cls == "authcall" || cls == "stakefamily" {
+				key = "static-frame:" + cls // fully explained by the recorded defect (signature checked above)
+			}
+			p.report(key, fmt.Sprintf("frame %d (%s) inside a STATICCALL changed the state: before %s after %s", id, frameDesc(ni.a), ref, now))
 		}
 		return
 	}
@@ -259,7 +377,7 @@ func (p *probeState) onExit(id int, ok bool, dump string) {
 		}
 	}
 	if !ok && pf.hasEntry && now != pf.entry {
-		p.report("failed-frame:"+frameDesc(ni.a)+":"+ni.a.body.end,
+		p.report("failed-frame:"+frameDesc(ni.a)+":"+failClass(ni.a.body.end, pf.entry, now),
 			fmt.Sprintf("frame %d (%s, ending %s) failed but left a trace: at entry %s at exit %s", id, frameDesc(ni.a), ni.a.body.end, pf.entry, now))
 	}
 }
@@ -339,7 +457,7 @@ func (p *probeState) rootExit(tx *txn, ok bool, dump string) {
 		p.report("pre-snapshot-effect:"+kind, fmt.Sprintf("outermost frame (%s) changed the state before taking its snapshot: %s -> %s", kind, pf.atPre, pf.entry))
 	}
 	if now := protectedPart(dump); !ok && pf.hasEntry && now != pf.entry {
-		p.report("failed-frame:"+kind+":"+tx.body.end,
+		p.report("failed-frame:"+kind+":"+failClass(tx.body.end, pf.entry, now),
 			fmt.Sprintf("outermost frame (%s, ending %s) failed but left a trace: at entry %s at exit %s", kind, tx.body.end, pf.entry, now))
 	}
 }
@@ -876,8 +994,7 @@ func runSearch(a map[string]string) {
 	}
 	sort.Strings(keys)
 	for _, k := range keys {
-		b, _ := json.Marshal(byKey[k])
-		fmt.Println("VIOL " + string(b))
+		emitViolation(byKey[k])
 	}
 	sj, _ := json.Marshal(map[string]interface{}{"probes": probes, "distinct": len(distinct), "oracle_checks": p.checks, "classes": classes, "violation_classes": keys})
 	fmt.Println("STATS " + string(sj))
